@@ -458,6 +458,9 @@ CORPUS["C02"] = [
     ("cfg mfs=0 sync=none frag=1/1 dead=1099511627776 small=0 cache=256 pool=1", [b"k", b"z"],
      [P(b"k", b"v1"), P(b"z", b"q"), ("del", b"k"), P(b"k", b"v2"), ("del", b"z"), ("reopen",), ("reopen",), ("get", b"k"), ("get", b"z")]),
 ]
+# D3 (known finding) under C02: the store has merged on its own between the delete and the close
+CORPUS["C02"].append(("cfg mfs=100 sync=none frag=1/1 dead=1099511627776 small=60 cache=256 pool=1", [b"k"],
+                      [("put", b"k", b"x" * 100, "78*100"), ("del", b"k"), ("merge",), ("reopen",), ("get", b"k")]))
 CORPUS["C05"] = [
     # D3: value in file 0 (unselected: big), tombstone in file 1 (selected: small)
     ("cfg mfs=100 sync=none frag=1/1 dead=1099511627776 small=60 cache=256 pool=1", [b"k"],
@@ -487,8 +490,17 @@ def run_c01(rep, tier, seed):
 
 def run_c02(rep, tier, seed):
     n = 250 if tier == "quick" else 3000
+    # (the store merges on its own whenever its policy says so: a history of sets and deletes is a history with merge passes at
+    #  arbitrary points in it, so a third of the histories contain some)
+    def with_merges(rng, h):
+        if rng.random() < 0.33:
+            ops = list(h.ops)
+            for _ in range(rng.randint(1, 3)):
+                ops.insert(rng.randint(0, len(ops)), ("merge",))
+            h.ops = ops
     generic_store_check(rep, tier, seed, "C02", {"put", "del", "get", "reopen"},
-                        lambda meta: (lambda i, op: (gets(meta) + ["dump"]) if op[0] == "reopen" else []), {"map", "restart"}, n, share_long=0.2)
+                        lambda meta: (lambda i, op: (gets(meta) + ["dump"]) if op[0] == "reopen" else (["hazard"] if op[0] == "merge" else [])), {"map", "restart"}, n, share_long=0.2,
+                        mutate_hist=with_merges)
     # histories need not be sequential: two operations on one key race for the writer, one of them held between its append
     # and its index update; what the store reads once both have returned is what it must read after the restart
     root = os.path.join(WORK, "run-C02-race")
